@@ -112,9 +112,10 @@ func (r *reference) resolveRef(cfg *Config, opts *options) (value, error) {
 
 	opts.eval.add(r.Path.String())
 	if ok := opts.activeFields.AddNew(r.Path.String()); !ok {
-		opts.eval.cycles++
+		opts.eval.reentered(r.Path.String())
 		return nil, raiseCyclicErr(r.Path.String())
 	}
+	opts.eval.activated(r.Path.String())
 
 	var err Error
 
